@@ -25,6 +25,13 @@ Theorem C08_at_most_once : forall cfg base root sched,
 Proof. exact at_most_once_full. Qed.
 Print Assumptions C08_at_most_once.
 
+(** For a well-formed tree (no "/" in a name, sibling names distinct — every real file tree) the
+    callback log never contains the same item twice. *)
+Theorem C08_no_duplicates : forall cfg base root sched,
+  wf_list root = true -> NoDup (log (run cfg sched (init cfg base root))).
+Proof. exact log_nodup_wf. Qed.
+Print Assumptions C08_no_duplicates.
+
 (** With the exit test of the current tree (step read before the two len() reads), whenever all
     consumers have exited and the lifecycle was not killed (then the error list is empty too, last
     conjunct), the callbacks made are exactly the selected nodes, each once, and both queues are
@@ -118,6 +125,9 @@ Example C08_F16_schedule_now :
   let s := run cfg ([TC 0%nat; TC 0%nat; TP 0%nat; TP 0%nat; TP 0%nat; TP 0%nat; TP 0%nat; TK; TK] ++ repeat (TC 0%nat) 14%nat) (init cfg f16_base f16_root) in
   all_exited s = true /\ killed s = false /\ log s = [IFile (f16_base ++ [111; 110; 108; 121; 46; 116; 120; 116])].
 Proof. vm_compute. repeat split. Qed.
+
+Example C08_wf_nonvacuous : wf_list ex_root = true /\ wf_list f16_root = true.
+Proof. vm_compute. split; reflexivity. Qed.
 
 Example C08_exactly_once_nonvacuous :
   let s := run ex_cfg ex_sched (init ex_cfg f16_base ex_root) in
